@@ -60,6 +60,13 @@ pub(crate) fn format(src: &str, path: &Path) -> String {
         &mut visitor.processed_lines,
     );
 
+    // Lines that begin inside a multi-line string literal belong to the
+    // string's value, so the line-based phases must leave them alone.
+    let string_lines = lines_inside_string_literals(src, &vfs_path);
+    visitor
+        .line_edits
+        .retain(|edit| !string_lines.contains(&edit.line_number));
+
     // Phase 4: Apply span edits first (single-line block spacing)
     let src_after_spans = apply_span_edits(src, &mut visitor.span_edits);
 
@@ -67,7 +74,11 @@ pub(crate) fn format(src: &str, path: &Path) -> String {
     let src_after_indent = apply_indentation_edits(&src_after_spans, &visitor.line_edits);
 
     // Phase 6: Normalize blank lines
-    let src_after_blanks = normalize_blank_lines(&src_after_indent, &visitor.toplevel_start_lines);
+    let src_after_blanks = normalize_blank_lines(
+        &src_after_indent,
+        &visitor.toplevel_start_lines,
+        &string_lines,
+    );
 
     // Phase 7: Fix type annotation spacing
     let src_after_types = fix_type_annotation_spacing(&src_after_blanks, &vfs_path);
@@ -690,6 +701,31 @@ fn collect_comment_edits(
     }
 }
 
+/// Find the lines that begin inside a multi-line string literal.
+///
+/// The leading whitespace of these lines, and any blank lines among
+/// them, are part of the string, so reformatting them would change the
+/// program.
+fn lines_inside_string_literals(
+    src: &str,
+    vfs_path: &crate::parser::vfs::VfsPathBuf,
+) -> FxHashSet<usize> {
+    let (mut token_stream, _) = lex_between(vfs_path, src, 0, src.len());
+
+    let mut lines = FxHashSet::default();
+    while let Some(token) = token_stream.pop() {
+        if !token.text.starts_with('"') {
+            continue;
+        }
+
+        for i in 1..=token.text.matches('\n').count() {
+            lines.insert(token.position.line_number + i);
+        }
+    }
+
+    lines
+}
+
 /// Apply indentation edits to the source while preserving blank lines.
 fn apply_indentation_edits(src: &str, line_edits: &[LineEdit]) -> String {
     let lines: Vec<&str> = src.lines().collect();
@@ -758,7 +794,14 @@ fn apply_span_edits(src: &str, span_edits: &mut [SpanEdit]) -> String {
 ///
 /// - Before non-import toplevel definitions: exactly one blank line
 /// - Inside blocks: at most one blank line between lines
-fn normalize_blank_lines(src: &str, toplevel_start_lines: &[usize]) -> String {
+///
+/// Lines in `string_lines` begin inside a multi-line string literal
+/// and are copied unchanged.
+fn normalize_blank_lines(
+    src: &str,
+    toplevel_start_lines: &[usize],
+    string_lines: &FxHashSet<usize>,
+) -> String {
     let lines: Vec<&str> = src.lines().collect();
     if lines.is_empty() {
         return src.to_owned();
@@ -772,7 +815,7 @@ fn normalize_blank_lines(src: &str, toplevel_start_lines: &[usize]) -> String {
         let line = lines[i];
 
         // If this line is blank
-        if line.trim().is_empty() {
+        if line.trim().is_empty() && !string_lines.contains(&i) {
             // Count consecutive blank lines
             while i < lines.len() && lines[i].trim().is_empty() {
                 i += 1;
@@ -798,6 +841,7 @@ fn normalize_blank_lines(src: &str, toplevel_start_lines: &[usize]) -> String {
         if i < lines.len()
             && !lines[i].trim().is_empty()
             && toplevel_lines.contains(&i)
+            && !string_lines.contains(&i)
             && !line.trim_start().starts_with("//")
         {
             // Next non-blank line is a toplevel definition, but there's no blank line
